@@ -145,6 +145,8 @@ def parse_spec(path):
                 cfg.setdefault('mutating_methods', []).extend(rest.split())
             elif key == '@typename_pass':
                 cfg['typename_pass'] = rest.strip() not in ('0', 'no')
+            elif key == '@throw_codes':
+                cfg['throw_codes'] = rest.strip() not in ('0', 'no')
             elif key == '@abstract_tables':
                 cfg['abstract_tables'] = rest.strip() not in ('0', 'no')
             elif key == '@tolerated_clang_errors':
